@@ -129,8 +129,21 @@ def gen_call(rng, idx):
     xe = [C.dyadic(rng, xmin - rg / 8, xmax + rg / 8, 12) for _ in range(ne)]
     xe += rng.sample(xs, min(len(xs), 4))                      # data points themselves
     keys = None if rng.random() < 0.3 else [rng.randrange(1 << 30) for _ in range(97)]
-    return {'xs': xs, 'nord': k, 'opt': {'kind': kind, 'value': value}, 'bkspread': bkspread,
+    call = {'xs': xs, 'nord': k, 'opt': {'kind': kind, 'value': value}, 'bkspread': bkspread,
             'coeff': coeff, 'xe': xe, 'keys': keys}
+    # sparse evaluation sets: a single point, an isolated minimum, one point per interval (the per-interval
+    # row ranges lower/upper of value() then have lower == upper, possibly == 0)
+    t = idx % 7
+    if t == 3:
+        call['sparse'] = 'single'
+        call['xe'] = [C.dyadic(rng, xmin, xmax, 12)]
+    elif t == 5:
+        call['sparse'] = 'one-per-interval'
+        call['stride'] = rng.choice([1, 1, 2])
+    elif t == 6:
+        call['sparse'] = 'isolated-min'
+        call['first'] = rng.randrange(8)
+    return call
 
 
 def case_term(c, r):
